@@ -3,17 +3,15 @@ import NavisModel.Proofs.WfB
 /-!
 # C07 — SWC files round-trip and are valid, parent-first SWC tables
 
-Model: `NavisModel/Model/Swc.lean` (`makeSwcTable` = `navis.io.swc_io.make_swc_table` as written,
-`makeSwcTableTopo` = the repaired ordering, `parseSwc` / `readBack` = `SwcReader.read_buffer` /
-`read_dataframe` on the token level).  All theorems quantify over every node table `sk.nodes` whose
-forest (ids + parent links) is well-formed (`WF`, DESIGN §2.4), every label / connector / metadata option,
-and — where the order matters — over **every** admissible result `o` of `sort_values("parent_id")`
-(`IsParentSort`: a permutation sorted by `parent_id`; pandas' default quicksort is not stable, so the
-tie order is not determined by the code).
+Model: `NavisModel/Model/Swc.lean` (`makeSwcTable` = `navis.io.swc_io.make_swc_table`: stable sort by depth,
+re-indexing, parent remap; `parseSwc` / `readBack` = `SwcReader.read_buffer` / `read_dataframe` on the token
+level).  All theorems quantify over every node table `sk.nodes` whose forest (ids + parent links) is
+well-formed (`WF`, DESIGN §2.4) and every label / connector / metadata option.
 
-Open defect (DESIGN §6 #1): `sortByParent_valid_iff` says precisely for which inputs the ordering as
-written yields a valid table; `rerooted_chain5_invalid` is the counter-example.  The full-strength
-validity statement holds for the repaired ordering (`topo_table_valid`).
+History (DESIGN §6 #1, fixed): `make_swc_table` used to order the rows with `sort_values("parent_id")`.  The
+theorems prefixed `historical_` are statements about that *former* ordering (`sortByParent`, `IsParentSort`,
+`makeSwcTableHist` exist in the model only): they say precisely for which inputs it produced an invalid table.
+They are not claims about the current code.
 -/
 namespace Navis.Props.C07
 open Navis.Swc Navis.Forest
@@ -23,10 +21,11 @@ decides the specification: ids are `1..N` in row order, a row is a root with par
 smaller than its id and is the id of an earlier row. -/
 theorem swc_valid_iff (s : List SwcRow) : swcValidB s = true ↔ SwcValid s := swcValidB_iff s
 
-/-- The repaired (depth-sorted, parent-first) ordering yields a valid SWC table for every well-formed
-skeleton and every label option. -/
-theorem topo_table_valid (op : Opts) (sk : Skel) (hw : WF (forest sk.nodes)) :
-    swcValidB (makeSwcTableTopo op sk) = true :=
+/-- **The written table is valid** for every well-formed skeleton (any ids, any row order — rerooted,
+shuffled, sparse, forests) and every label option: seven columns by construction, ids `1..N`, roots `-1`,
+every parent listed before and numbered lower than its children. -/
+theorem table_valid (op : Opts) (sk : Skel) (hw : WF (forest sk.nodes)) :
+    swcValidB (makeSwcTable op sk) = true :=
   (swcValidB_iff _).mpr (depthSort_valid _ hw (sortByDepth_perm _) (sortByDepth_sorted _))
 
 /-- Every order that is sorted by depth (any tie-break) yields a valid table. -/
@@ -36,26 +35,28 @@ theorem any_depth_order_valid (op : Opts) (sk : Skel) (o : List SNode) (hw : WF 
     swcValidB (finish (labelOf op sk) o) = true :=
   (swcValidB_iff _).mpr (depthSort_valid _ hw hperm hsort)
 
-/-- **As written**, for *any* admissible `sort_values("parent_id")` order (stable or not): the written
-table is valid iff every node that has a child has `parent_id < node_id`. -/
-theorem anyParentSort_valid_iff (op : Opts) (sk : Skel) (o : List SNode) (hw : WF (forest sk.nodes))
+/-! ### historical ordering (`sort_values("parent_id")`, replaced by the fix) -/
+
+/-- HISTORICAL.  For *any* admissible `sort_values("parent_id")` order (stable or not) the table was valid iff
+every node that has a child has `parent_id < node_id`. -/
+theorem historical_anyParentSort_valid_iff (op : Opts) (sk : Skel) (o : List SNode) (hw : WF (forest sk.nodes))
     (ho : IsParentSort sk.nodes o) :
     swcValidB (finish (labelOf op sk) o) = true ↔
       ∀ p ∈ sk.nodes, (∃ c ∈ sk.nodes, c.parent = p.id) → p.parent < p.id := by
   rw [swcValidB_iff]; exact parentSort_valid_iff _ hw ho
 
-/-- `make_swc_table` as written yields a valid table iff the node table is "id-topological at the inner
-nodes": every node that has a child has `parent_id < node_id`. -/
-theorem sortByParent_valid_iff (op : Opts) (sk : Skel) (hw : WF (forest sk.nodes)) :
-    swcValidB (makeSwcTable op sk) = true ↔
+/-- HISTORICAL.  The former `make_swc_table` yielded a valid table iff every node that has a child has
+`parent_id < node_id`. -/
+theorem historical_sortByParent_valid_iff (op : Opts) (sk : Skel) (hw : WF (forest sk.nodes)) :
+    swcValidB (makeSwcTableHist op sk) = true ↔
       ∀ p ∈ sk.nodes, (∃ c ∈ sk.nodes, c.parent = p.id) → p.parent < p.id :=
-  anyParentSort_valid_iff op sk _ hw (sortByParent_isParentSort _)
+  historical_anyParentSort_valid_iff op sk _ hw (sortByParent_isParentSort _)
 
-/-- Sufficient condition: ids assigned parent-first (every `parent_id < node_id`, e.g. the bundled
-example neurons) ⇒ the table as written is valid. -/
-theorem sortByParent_valid_of_id_topological (op : Opts) (sk : Skel) (hw : WF (forest sk.nodes))
-    (h : ∀ n ∈ sk.nodes, n.parent < n.id) : swcValidB (makeSwcTable op sk) = true :=
-  (sortByParent_valid_iff op sk hw).mpr fun p hp _ => h p hp
+/-- HISTORICAL.  Sufficient condition under which the former ordering was right: ids assigned parent-first
+(every `parent_id < node_id`, e.g. the bundled example neurons — which is why the test-suite never noticed). -/
+theorem historical_valid_of_id_topological (op : Opts) (sk : Skel) (hw : WF (forest sk.nodes))
+    (h : ∀ n ∈ sk.nodes, n.parent < n.id) : swcValidB (makeSwcTableHist op sk) = true :=
+  (historical_sortByParent_valid_iff op sk hw).mpr fun p hp _ => h p hp
 
 /-- The 5-node chain `1 ← 2 ← 3 ← 4 ← 5` after `reroot_skeleton(x, 5)` (row order and ids as navis leaves them). -/
 def chain5Rerooted : Skel :=
@@ -64,22 +65,22 @@ def chain5Rerooted : Skel :=
 
 theorem chain5Rerooted_wf : WF (forest chain5Rerooted.nodes) := (wfB_iff _).mp (by decide)
 
-/-- Counter-example (DESIGN §6 #1): the table written for the rerooted chain is invalid
-(row 2 has parent 3) … -/
-theorem rerooted_chain5_invalid : swcValidB (makeSwcTable {} chain5Rerooted) = false := by decide
+/-- HISTORICAL counter-example (DESIGN §6 #1): the former ordering wrote an invalid table for the rerooted chain
+(row 2 had parent 3) … -/
+theorem historical_rerooted_chain5_invalid : swcValidB (makeSwcTableHist {} chain5Rerooted) = false := by decide
 
-/-- … whatever tie-break the sort uses … -/
-theorem rerooted_chain5_invalid_any_order (op : Opts) (o : List SNode) (ho : IsParentSort chain5Rerooted.nodes o) :
+/-- HISTORICAL … whatever tie-break the sort used … -/
+theorem historical_rerooted_chain5_invalid_any_order (op : Opts) (o : List SNode) (ho : IsParentSort chain5Rerooted.nodes o) :
     swcValidB (finish (labelOf op chain5Rerooted) o) = false := by
   cases h : swcValidB (finish (labelOf op chain5Rerooted) o) with
   | false => rfl
   | true =>
-    have := (anyParentSort_valid_iff op chain5Rerooted o chain5Rerooted_wf ho).mp h
+    have := (historical_anyParentSort_valid_iff op chain5Rerooted o chain5Rerooted_wf ho).mp h
       { id := 2, parent := 3 } (by decide) ⟨{ id := 1, parent := 2, type := .end_ }, by decide, rfl⟩
     exact absurd this (by decide)
 
-/-- … while the repaired ordering is valid on it. -/
-theorem rerooted_chain5_topo_valid : swcValidB (makeSwcTableTopo {} chain5Rerooted) = true := by decide
+/-- … while the table written now is valid on it (instance of `table_valid`, here by evaluation). -/
+theorem rerooted_chain5_valid : swcValidB (makeSwcTable {} chain5Rerooted) = true := by decide
 
 /-- The node map (`return_node_map=True`) is a bijection from the node ids onto `1..N`. -/
 theorem node_map_bijective (sk : Skel) (o : List SNode) (hw : WF (forest sk.nodes)) (hperm : o.Perm sk.nodes) :
@@ -127,13 +128,13 @@ theorem round_trip (cfg : ReadCfg) (wm : WriteMeta) (op : Opts) (sk : Skel) (o :
   · intro a ha b hb h
     exact newId_inj hnd (hperm.mem_iff.mpr ha) (hperm.mem_iff.mpr hb) h
 
-/-- The round trip for the file `write_swc` produces (stable representative of the sort). -/
+/-- The round trip for the file `write_swc` produces. -/
 theorem round_trip_as_written (cfg : ReadCfg) (wm : WriteMeta) (op : Opts) (sk : Skel) (hw : WF (forest sk.nodes)) :
     ∃ r, readBack cfg (write wm op sk) = some r ∧ r.nodes = makeSwcTable op sk ∧
       r.nodes.map (·.id) = (List.range sk.nodes.length).map (fun (j : Nat) => ((j : Nat) : Int) + 1) := by
-  obtain ⟨r, h1, _, h3, _⟩ := round_trip cfg wm op sk (sortByParent sk.nodes) hw (sortByParent_isParentSort _).1
+  obtain ⟨r, h1, _, h3, _⟩ := round_trip cfg wm op sk (sortByDepth sk.nodes) hw (sortByDepth_perm _)
   refine ⟨r, h1, ?_, h3⟩
-  have := readBack_writeWith cfg wm op sk (sortByParent sk.nodes)
+  have := readBack_writeWith cfg wm op sk (sortByDepth sk.nodes)
   unfold write at *
   rw [this] at h1
   injection h1 with h1
@@ -213,15 +214,36 @@ theorem no_meta_round_trip (cfg : ReadCfg) (op : Opts) (sk : Skel) (o : List SNo
   refine ⟨_, readBack_writeWith cfg .off op sk o, ?_⟩
   simp [ofFile, metaProps]
 
+/-! ### rows with missing data (`sanitise_nodes`, DESIGN §6 #15, fixed) -/
+
+/-- Reading never fails because of a NaN in a key column: with enough columns the parser always returns a
+table, whose ids are those of the complete rows in file order. -/
+theorem nan_rows_dropped (ls : List Line) (hc : columnsOK (dataRows ls) = true) :
+    ∃ f, parseSwc ls = some f ∧
+      f.rows.map (·.id) = (keptRows ((dataRows ls).map parseRow)).map (·.id) := by
+  refine ⟨_, by unfold parseSwc; rw [if_pos hc], ?_⟩
+  exact sanitiseRows_ids _
+
+/-- If a row was dropped, no remaining row refers to a missing parent: its parent is `-1` or a remaining id. -/
+theorem nan_rows_orphans_rerooted (rs : List (Option SwcRow)) (hdrop : (keptRows rs).length ≠ rs.length) :
+    ∀ r ∈ sanitiseRows rs, r.parent = -1 ∨ r.parent ∈ (sanitiseRows rs).map (·.id) :=
+  sanitiseRows_no_dangling rs hdrop
+
+/-- Without missing data the table is taken as it is. -/
+theorem complete_rows_unchanged (l : List SwcRow) : sanitiseRows (l.map some) = l := sanitiseRows_map_some l
+
 /-! ### obligations over the definitions regenerated from the current source (`Gen/Swc.lean`) -/
 
 /-- The writer selects, and the reader names, the seven SWC columns in the order `PointNo Label X Y Z Radius Parent`. -/
 theorem gen_columns : Gen.Swc.columnOrder = ["node_id", "label", "x", "y", "z", "radius", "parent_id"] ∧
     Gen.Swc.nodeColumns = Gen.Swc.columnOrder := ⟨rfl, rfl⟩
 
-/-- The sort the model calls `sortByParent`; the new ids start at 1; a missing parent becomes -1. -/
-theorem gen_reindex : Gen.Swc.sortColumn = "parent_id" ∧ Gen.Swc.sortAscending = true ∧ Gen.Swc.firstId = 1 ∧
-    Gen.Swc.missingParent = -1 := ⟨rfl, rfl, rfl, rfl⟩
+/-- The sort the model calls `sortByDepth` (stable, ascending, on the column computed by `_node_depths` whose
+loop has the recognised shape "root 0, child = parent + 1"); the new ids start at 1; a missing parent becomes -1. -/
+theorem gen_reindex : Gen.Swc.sortColumn = "_depth" ∧ Gen.Swc.sortAscending = true ∧ Gen.Swc.sortKind = "stable" ∧
+    Gen.Swc.sortKeySource = "_node_depths(swc.node_id.values, swc.parent_id.values)" ∧
+    Gen.Swc.depthRule = "root=0;child=parent+1" ∧ Gen.Swc.firstId = 1 ∧
+    Gen.Swc.missingParent = -1 := ⟨rfl, rfl, rfl, rfl, rfl, rfl, rfl⟩
 
 /-- The radius column is written from the radius column, NaN filled with 0 (the model's `getD 0`). -/
 theorem gen_radius : Gen.Swc.radiusSource = "swc.radius" ∧ Gen.Swc.radiusFill = 0 := ⟨rfl, rfl⟩
@@ -245,18 +267,22 @@ def demo : Skel :=
     soma := [125], hasConn := true, pre := [25, 8], post := [25] }
 
 example : WF (forest demo.nodes) := (wfB_iff _).mp (by decide)
+example : swcValidB (makeSwcTable {} demo) = true := by decide
 example : IsParentSort demo.nodes (sortByParent demo.nodes) := sortByParent_isParentSort _
--- the hypothesis of `sortByParent_valid_iff` fails on `demo` (node 25 has children and parent 98 > 25) …
-example : swcValidB (makeSwcTable {} demo) = false := by decide
-example : swcValidB (makeSwcTableTopo {} demo) = true := by decide
+-- historical: the condition of `historical_sortByParent_valid_iff` fails on `demo` (node 25 has children and parent 98 > 25) …
+example : swcValidB (makeSwcTableHist {} demo) = false := by decide
 -- … and holds on a parent-first labelled table
 def demoSeq : Skel := { nodes := [{ id := 1, parent := -1, type := .root }, { id := 2, parent := 1 }, { id := 3, parent := 2, type := .end_ }] }
 example : WF (forest demoSeq.nodes) := (wfB_iff _).mp (by decide)
 example : ∀ n ∈ demoSeq.nodes, n.parent < n.id := by decide
+example : swcValidB (makeSwcTableHist {} demoSeq) = true := by decide
 example : swcValidB (makeSwcTable {} demoSeq) = true := by decide
+-- a dropped row: row 2 has no x; its child 3 becomes a root
+example : sanitiseRows [some ⟨1, some 0, 0, 0, 0, none, -1⟩, none, some ⟨3, some 0, 0, 0, 0, none, 2⟩, some ⟨4, some 0, 0, 0, 0, none, 1⟩]
+    = [⟨1, some 0, 0, 0, 0, none, -1⟩, ⟨3, some 0, 0, 0, 0, none, -1⟩, ⟨4, some 0, 0, 0, 0, none, 1⟩] := by decide
 -- soma / synapse hypotheses are satisfiable: node 125 is a soma without synapse, 25 carries pre + post, 8 only pre
 example : ∃ n ∈ demo.nodes, n.id ∈ demo.soma ∧ ((true = true) → n.id ∉ demo.post ∧ n.id ∉ demo.pre) := by decide
-example : (makeSwcTable { exportConn := true } demo).map (·.label) = [some 0, some 0, some 6, some 7, some 8, some 1] := by decide
-example : nodeMap demo = [(167, 1), (98, 2), (111, 3), (8, 4), (25, 5), (125, 6)] := by decide
+example : (makeSwcTable { exportConn := true } demo).map (·.label) = [some 0, some 0, some 8, some 1, some 6, some 7] := by decide
+example : nodeMap demo = [(167, 1), (98, 2), (25, 3), (125, 4), (111, 5), (8, 6)] := by decide
 
 end Navis.Props.C07
